@@ -294,6 +294,11 @@ func c20Drive(args []string) int {
    "on_ancestor": {"xpath": "..", "object": {
       "label": {"custom_func": {"name": "javascript", "args": [{"const": "'T:' + q"}, {"const": "q"}, {"xpath": "rec/qty"}]}},
       "ctx": {"custom_func": {"name": "javascript_with_context", "args": [{"const": "q + '/' + h"}, {"const": "q"}, {"xpath": "rec/qty"}, {"const": "h"}, {"xpath": "hdr"}]}}}}}}}}`
+	twinSchema := `{"parser_settings": {"version": "omni.2.1", "file_format_type": "json"},
+ "transform_declarations": {"FINAL_OUTPUT": {"xpath": "/*", "object": {"id": {"xpath": "id"},
+   "a_ref": {"xpath_dynamic": {"custom_func": {"name": "javascript", "args": [{"const": "if (k == 'throw') { throw 'boom' }; k == 'nan' ? 0/0 : (k == 'undef' ? undefined : k)"}, {"const": "k"}, {"xpath": "k"}]}}},
+   "b_val": {"custom_func": {"name": "javascript", "args": [{"const": "if (k == 'throw') { throw 'boom' }; k == 'nan' ? 0/0 : (k == 'undef' ? undefined : k)"}, {"const": "k"}, {"xpath": "k"}]}}}}}}`
+	twinIn := `[{"id": "r1", "k": "v", "v": "v1"}, {"id": "r2", "k": "throw"}, {"id": "r3", "k": "nan"}, {"id": "r4", "k": "undef"}, {"id": "r5", "k": "w", "w": "w5"}]`
 	ancIn := `<root><hdr>H</hdr><rec><qty>3</qty></rec><rec><qty>7.5</qty></rec><rec><qty>1</qty></rec></root>`
 	for _, d := range []struct {
 		name, schema, in string
@@ -303,6 +308,8 @@ func c20Drive(args []string) int {
 			`ok {"on_ancestor":{"ctx":"3/H","label":"T:3"},"on_record":"T:3"}`,
 			`ok {"on_ancestor":{"ctx":"7.5/H","label":"T:7.5"},"on_record":"T:7.5"}`,
 			`ok {"on_ancestor":{"ctx":"1/H","label":"T:1"},"on_record":"T:1"}`}},
+		{"a script that fails, first as a computed xpath (where a failure means 'no xpath') and then as a value", twinSchema, twinIn, []string{
+			`ok {"a_ref":"v1","b_val":"v","id":"r1"}`, "failed", "failed", "failed", `ok {"a_ref":"w5","b_val":"w","id":"r5"}`}},
 		{"what a call sees", depSchema, depIn, []string{
 			`ok {"c_s":"x+","c_type":"string/undefined","p_arg":"x!","p_same":"k","p_type":"undefined/undefined/undefined"}`,
 			`ok {"c_s":"yy+","c_type":"string/undefined","p_arg":"yy!","p_same":"k","p_type":"undefined/undefined/undefined"}`,
